@@ -453,3 +453,161 @@ def raw_variant(src, dst, kind, which=0):
         return None
     open(dst, "w").write("\n".join(lines) + "\n")
     return what
+
+
+# ---------------------------------------------------------------------------------------------------------------------
+# generated MATPOWER files (written here, independently of andes/io/matpower.py) that use the documented columns
+# ---------------------------------------------------------------------------------------------------------------------
+def write_matpower(path, seed, base_mva=100.0):
+    """A small meshed network with off-nominal ratios, phase shifters, bus shunts, out-of-service branches and generators,
+    two generators on one bus.  Returns a description."""
+    import random
+    rnd = random.Random(seed)
+    n = rnd.choice([5, 6, 7])
+    pv = set(rnd.sample(range(2, n + 1), 2))
+    bus, gen, br = [], [], []
+    for i in range(1, n + 1):
+        typ = 3 if i == 1 else (2 if i in pv else 1)
+        pd, qd = (0.0, 0.0) if i == 1 else (rnd.choice([20.0, 35.0, 50.0]), rnd.choice([5.0, 10.0, -4.0]))
+        gs, bs = rnd.choice([(0.0, 0.0), (0.0, 19.0), (1.5, -6.0)])
+        bus.append([i, typ, pd, qd, gs, bs, 1, 1.0, 0.0, 230.0, 1, 1.1, 0.9])
+    gen.append([1, 50.0, 0.0, 300.0, -300.0, 1.03, base_mva, 1, 250.0, 10.0])
+    for k, i in enumerate(sorted(pv)):
+        gen.append([i, rnd.choice([30.0, 45.0]), 0.0, 300.0, -300.0, rnd.choice([1.01, 1.02]), base_mva, 1, 250.0, 10.0])
+        if k == 0:
+            gen.append([i, 12.5, 0.0, 300.0, -300.0, gen[-1][5], base_mva, 1, 250.0, 10.0])      # a second unit on the same bus
+        else:
+            gen.append([i, 80.0, 0.0, 300.0, -300.0, gen[-1][5], base_mva, 0, 250.0, 10.0])      # a unit out of service
+    edges = [(i, i + 1) for i in range(1, n)] + [(n, 1), (1, 3), (2, n)]
+    for k, (a, b) in enumerate(edges):
+        ratio, ang = rnd.choice([(0.0, 0.0), (0.0, 0.0), (1.0, 0.0), (0.975, 0.0), (1.05, 0.0), (1.0, 4.0), (0.98, -3.0)])
+        br.append([a, b, rnd.choice([0.01, 0.02, 0.004]), rnd.choice([0.08, 0.12, 0.05]), rnd.choice([0.0, 0.04, 0.09]), 250, 250, 250,
+                   ratio, ang, 1, -360, 360])
+    br.append([1, 2, 0.01, 0.09, 0.03, 250, 250, 250, 0.0, 0.0, 1, -360, 360])                  # a parallel circuit
+    br.append([2, 4, 0.02, 0.10, 0.02, 250, 250, 250, 0.0, 0.0, 0, -360, 360])                  # out of service
+
+    def mat(name, rows):
+        return "mpc.%s = [\n%s\n];\n" % (name, "\n".join("\t" + "\t".join("%g" % x for x in r) + ";" for r in rows))
+    text = "function mpc = gen%d\nmpc.version = '2';\nmpc.baseMVA = %g;\n%s%s%s" % (seed, base_mva, mat("bus", bus), mat("gen", gen), mat("branch", br))
+    open(path, "w").write(text)
+    return "generated MATPOWER case, seed %d, baseMVA %g: %d buses, ratios / phase shifts, bus shunts, a second unit and an out-of-service unit" % (
+        seed, base_mva, n)
+
+
+# ---------------------------------------------------------------------------------------------------------------------
+# independent reading of the PSS/E dynamic data file (dyr): record = IBUS 'MODEL' ID  ICONs...  CONs... /
+# layouts transcribed from the PSS/E model library documentation (CON order); the third column of an entry names the
+# parameter of the library's model that must carry the value, with the documented conversion (M = 2 H)
+# ---------------------------------------------------------------------------------------------------------------------
+def _same(name):
+    return (name, None)
+
+
+DYR_LAYOUT = {
+    # model: (kind, number of ICONs, [(library parameter, conversion)] in CON order; None = not compared)
+    "GENCLS": ("syn", 0, [("M", 2.0), _same("D")]),
+    "GENROU": ("syn", 0, [_same("Td10"), _same("Td20"), _same("Tq10"), _same("Tq20"), ("M", 2.0), _same("D"), _same("xd"), _same("xq"),
+                          _same("xd1"), _same("xq1"), _same("xd2"), _same("xl"), _same("S10"), _same("S12")]),
+    "TGOV1": ("gov", 0, [_same(x) for x in ("R", "T1", "VMAX", "VMIN", "T2", "T3", "Dt")]),
+    "IEEEG1": ("gov", 2, [_same(x) for x in ("K", "T1", "T2", "T3", "UO", "UC", "PMAX", "PMIN", "T4", "K1", "K2", "T5", "K3", "K4", "T6", "K5",
+                                             "K6", "T7", "K7", "K8")]),
+    "HYGOV": ("gov", 0, [_same(x) for x in ("R", "r", "Tr", "Tf", "Tg", "VELM", "GMAX", "GMIN", "Tw", "At", "Dt", "qNL")]),
+    "IEESGO": ("gov", 0, [_same(x) for x in ("T1", "T2", "T3", "T4", "T5", "T6", "K1", "K2", "K3", "PMAX", "PMIN")]),
+    "SEXS": ("exc", 0, [_same(x) for x in ("TATB", "TB", "K", "TE", "EMIN", "EMAX")]),
+    "EXST1": ("exc", 0, [_same(x) for x in ("TR", "VIMAX", "VIMIN", "TC", "TB", "KA", "TA", "VRMAX", "VRMIN", "KC", "KF", "TF")]),
+    "EXDC2": ("exc", 0, [_same(x) for x in ("TR", "KA", "TA", "TB", "TC", "VRMAX", "VRMIN", "KE", "TE", "KF1", "TF1")] + [None] +
+              [_same(x) for x in ("E1", "SE1", "E2", "SE2")]),
+    "IEEEX1": ("exc", 0, [_same(x) for x in ("TR", "KA", "TA", "TB", "TC", "VRMAX", "VRMIN", "KE", "TE", "KF1", "TF1")] + [None] +
+               [_same(x) for x in ("E1", "SE1", "E2", "SE2")]),
+    "ESDC2A": ("exc", 0, [_same(x) for x in ("TR", "KA", "TA", "TB", "TC", "VRMAX", "VRMIN", "KE", "TE", "KF", "TF1")] + [None] +
+               [_same(x) for x in ("E1", "SE1", "E2", "SE2")]),
+    "ESST3A": ("exc", 0, [_same(x) for x in ("TR", "VIMAX", "VIMIN", "KM", "TC", "TB", "KA", "TA", "VRMAX", "VRMIN", "KG", "KP", "KI", "VBMAX",
+                                             "KC", "XL", "VGMAX", "THETAP", "TM", "VMMAX", "VMMIN")]),
+    "IEEEST": ("pss", 2, [_same(x) for x in ("A1", "A2", "A3", "A4", "A5", "A6", "T1", "T2", "T3", "T4", "T5", "T6", "KS", "LSMAX", "LSMIN",
+                                             "VCU", "VCL")]),
+    "ST2CUT": ("pss", 4, [_same(x) for x in ("K1", "K2", "T1", "T2", "T3", "T4", "T5", "T6", "T7", "T8", "T9", "T10", "LSMAX", "LSMIN",
+                                             "VCU", "VCL")]),
+}
+
+
+def read_dyr(path):
+    """[(bus, model, id, [numbers after the id])] in file order"""
+    text = open(path, errors="replace").read()
+    out = []
+    for chunk in text.split("/"):
+        chunk = " ".join(chunk.split())
+        m = re.match(r"^\s*(\d+)\s*'([^']+)'\s*(\S+)\s*(.*)$", chunk)
+        if not m:
+            continue
+        vals = []
+        for tok in m.group(4).replace(",", " ").split():
+            try:
+                vals.append(float(tok))
+            except ValueError:
+                vals.append(tok.strip("'"))
+        out.append((int(m.group(1)), m.group(2).strip(), m.group(3).strip("'").strip(), vals))
+    return out
+
+
+def compare_dyr(ss, path):
+    """Each record of a model with a known layout must have exactly one device of that model in the library's system, attached
+    (directly, through its exciter, or through its governor link) to the synchronous machine at (bus, id), carrying the values
+    of the record.  Returns dict(checked, bad [...], skipped models)."""
+    recs = read_dyr(path)
+    bad, checked, skipped = [], 0, {}
+    # machines by (bus, id): the static generator with that bus and subidx, then the SynGen device whose gen is that generator
+    sg = {}
+    for mdl in ss.StaticGen.models.values():
+        for k in range(mdl.n):
+            sub = mdl.subidx.v[k] if hasattr(mdl, "subidx") else None
+            sg[(mdl.bus.v[k], str(sub).strip().split(".")[0])] = mdl.idx.v[k]
+    syn = {}
+    for mdl in ss.SynGen.models.values():
+        for k in range(mdl.n):
+            syn.setdefault(mdl.gen.v[k], []).append((mdl.class_name, mdl.idx.v[k]))
+    used = {}
+    for bus, model, gid, vals in recs:
+        lay = DYR_LAYOUT.get(model)
+        if lay is None or model not in ss.models:
+            skipped[model] = skipped.get(model, 0) + 1
+            continue
+        kind, nicon, cons = lay
+        gen = sg.get((bus, str(gid).split(".")[0]))
+        machines = syn.get(gen, []) if gen is not None else []
+        mdl = ss.models[model]
+        target = None
+        if kind == "syn":
+            cand = [k for k in range(mdl.n) if mdl.gen.v[k] == gen]
+        elif kind in ("gov", "exc"):
+            midx = {i for _, i in machines}
+            cand = [k for k in range(mdl.n) if mdl.syn.v[k] in midx]
+        else:
+            midx = {i for _, i in machines}
+            avrs = set()
+            for em in ss.Exciter.models.values():
+                for k in range(em.n):
+                    if em.syn.v[k] in midx:
+                        avrs.add(em.idx.v[k])
+            cand = [k for k in range(mdl.n) if mdl.avr.v[k] in avrs]
+        cand = [k for k in cand if (model, k) not in used]
+        if not cand:
+            bad.append(dict(record="%d '%s' %s" % (bus, model, gid), what="no device of the model is attached to the machine at this bus / id"))
+            continue
+        target = cand[0]
+        used[(model, target)] = True
+        cvals = vals[nicon:]
+        for j, ent in enumerate(cons):
+            if ent is None or j >= len(cvals):
+                continue
+            name, conv = ent
+            p = getattr(mdl, name, None)
+            if p is None:
+                continue
+            vin = getattr(p, "vin", None)
+            got = float((vin if vin is not None and len(np.atleast_1d(vin)) == mdl.n else p.v)[target])
+            want = float(cvals[j]) * (conv if conv else 1.0)
+            checked += 1
+            default_used = want == 0.0 and got != 0.0     # the library replaces values it does not accept (non_zero ...) by defaults
+            if not default_used and abs(got - want) > 1e-9 * max(1.0, abs(want)):
+                bad.append(dict(record="%d '%s' %s" % (bus, model, gid), what="%s = %r, the file has %r at CON %d" % (name, got, want, j + 1)))
+    return dict(checked=checked, bad=bad, skipped=skipped, records=len(recs))
